@@ -94,6 +94,7 @@ def prt2(ctx: Ctx):
     rule = "PRT2"
     ctx.rule(rule, floor=5, what="default-port decisions compare with `== DEFAULT_PORTS.get(<own scheme>)`")
     DP = ("global", "_url", "DEFAULT_PORTS")
+    pairs = {}
     for fi in pkg_funcs(model):
         r = analyze(model, fi)
         seen = set()
@@ -109,11 +110,17 @@ def prt2(ctx: Ctx):
                         seen.add(key)
                         ctx.instance(rule)
                         other, get = (t[2], t[3]) if any(x == DP for x in walk(t[3])) else (t[3], t[2])
-                        ok = t[1] == "Eq" and get[0] == "call" and get[1] == ("attr", DP, "get") and len(get[2]) == 1 \
+                        # an (in)equality test of a port against the default of the URL's own scheme, either way round; which
+                        # branch elides the port is judged below, on what each path does
+                        ok = t[1] in ("Eq", "NotEq") and get[0] == "call" and get[1] == ("attr", DP, "get") and len(get[2]) == 1 \
                             and is_port_term(other, fi) and _scheme_term(get[2][0], other)
                         ctx.ob(rule, fi.qual, show(t), ok,
                                "default-port test is not `port == DEFAULT_PORTS.get(scheme of the same URL)`", where(fi, e.node),
                                sample="== DEFAULT_PORTS.get(own scheme)")
+                        if ok:
+                            pairs.setdefault(fi.qual, (fi, set()))[1].add((other, get))
+    for fi, pg in pairs.values():
+        _elision_polarity(ctx, rule, model, fi, pg)
     # the `port` accessor: explicit port, else the scheme default
     fi = model.func("_url.URL.port")
     r = analyze(model, fi)
@@ -127,6 +134,56 @@ def prt2(ctx: Ctx):
                 truth(("cmp", "Is", k[2], NONE), s.facts) is True for k in s.facts if k[0] == "cmp" and k[1] == "Is")
             ctx.ob(rule, fi.qual, f"return {show(v)}", ok, "fallback is not DEFAULT_PORTS.get(self._scheme) under `explicit port is None`",
                    where(fi, node), sample="scheme default only when no port is written")
+
+
+def _elision_polarity(ctx, rule, model, fi, pairs):
+    """The port is left out exactly when it equals the default (or is absent): on every path of a function that compares a
+    port p with the default, (a) an authority assembled with port None needs `p == default` or `p is None` on that path;
+    (b) an authority that carries p (as make_netloc's port, or after a ':' in a template) needs `p == default` not to hold;
+    (c) a comparison that is itself the result is the equality, not its negation."""
+    from ..strtpl import flatten
+    try:
+        r = analyze(model, fi, merge=False)
+    except AnalysisError:
+        r = analyze(model, fi)
+    problems = []
+    ports = {p for p, _g in pairs}
+
+    def eq(p, f):
+        out = []
+        for pp, g in pairs:
+            if pp == p:
+                a, b = truth(("cmp", "Eq", p, g), f), truth(("cmp", "Eq", g, p), f)       # written either way round
+                out.append(a if a is not None else b)
+        return out
+
+    def judge(v, f, node):
+        for t in walk(v):
+            if t[0] == "call" and t[1][0] == "global" and t[1][2] == "make_netloc" and len(t[2]) >= 4:
+                P = t[2][3]
+                if P == NONE:
+                    if not any(True in eq(p, f) or truth(("cmp", "Is", p, NONE), f) is True for p in ports):
+                        problems.append((node, f"{show(t)[:60]} drops the port although it is not known to be absent or the default"))
+                elif P in ports and True in eq(P, f):
+                    problems.append((node, f"{show(t)[:60]} writes the port although it equals the default"))
+            if t[0] in ("fstr", "binop") or (t[0] == "call" and t[1][0] == "attr" and t[1][2] in ("format", "join")):
+                parts = flatten(t)
+                for i, p_ in enumerate(parts):
+                    if p_[0] != "lit" and p_[1] in ports and i and parts[i - 1][0] == "lit" and parts[i - 1][1].endswith(":") \
+                            and True in eq(p_[1], f):
+                        problems.append((node, f"{show(t)[:60]} writes the port although it equals the default"))
+    for s_, v, node in r.returns:
+        if v[0] == "cmp" and any(p in (v[2], v[3]) for p in ports) and any(g in (v[2], v[3]) for _p, g in pairs):
+            if v[1] != "Eq":
+                problems.append((node, f"the result {show(v)[:60]} is the negation of the default-port test"))
+            continue
+        judge(v, s_.facts, node)
+    for e in r.events:
+        if e.kind in ("store_attr", "store_sub") and e.kind == "store_attr" and e.attr == "_netloc":
+            judge(e.value, e.state.facts, e.node)
+    ctx.instance(rule)
+    ctx.ob(rule, fi.qual, "which branch elides the port", not problems, problems[0][1] if problems else "",
+           where(fi, problems[0][0] if problems else fi.node), sample="port left out iff absent or equal to the scheme default")
 
 
 def _scheme_term(s, port):
@@ -232,7 +289,9 @@ def sh5(ctx: Ctx):
             ctrl = node
             while ctrl is not None and not isinstance(ctrl, (ast.If, ast.IfExp, ast.While, ast.Return, ast.Assign)):
                 ctrl = getattr(ctrl, "_parent", None)
-            only_raise = isinstance(ctrl, ast.If) and all(isinstance(b, ast.Raise) for b in ctrl.body) and not ctrl.orelse
+            # the guarded block does nothing but raise (possibly after building the message in a local)
+            only_raise = isinstance(ctrl, ast.If) and not ctrl.orelse and bool(ctrl.body) and isinstance(ctrl.body[-1], ast.Raise) and \
+                all(isinstance(b, (ast.Assign, ast.AnnAssign)) for b in ctrl.body[:-1])
             ctx.instance(rule)
             n += 1
             ctx.ob(rule, fi.qual, f"truthiness test of {show(t)}", only_raise,
